@@ -2,7 +2,11 @@
 """Prints the markdown table of DESIGN.md section 13 from seeded/*/meta.json, confirmation.json and detection.json."""
 import glob, json, os
 rows = []
-for d in sorted(glob.glob("/verif/seeded/*/")):
+def key(d):
+    name = os.path.basename(d.rstrip("/"))
+    a, b = name.split("-")
+    return (a, int(b))
+for d in sorted(glob.glob("/verif/seeded/C*/"), key=key):
     name = os.path.basename(d.rstrip("/"))
     try:
         meta = json.load(open(d + "meta.json"))
@@ -17,7 +21,11 @@ for d in sorted(glob.glob("/verif/seeded/*/")):
     if len(what) > 230:
         what = what[:227] + "..."
     hit = "yes" if target in fired else ("**NO**" if det else "?")
-    rows.append(f"| {name} | {what} | {'yes' if conf.get('confirmed') else 'no'} | {hit} | {', '.join(fired) or '-'}{(' (inconclusive: ' + ', '.join(inconc) + ')') if inconc else ''} |")
+    ran = [k for k in det if k.startswith("C")]
+    subset = f" [of {len(ran)} run]" if det and len(ran) < 20 else ""
+    if "_not_confirmed" in det:
+        hit, subset = "n/a", ""
+    rows.append(f"| {name} | {what} | {'yes' if conf.get('confirmed') else 'no'} | {hit} | {', '.join(fired) or '-'}{(' (inconclusive: ' + ', '.join(inconc) + ')') if inconc else ''}{subset} |")
 print("| change | what it does | confirmed | caught by its own property's check | all quick checks that fire |")
 print("|---|---|---|---|---|")
 print("\n".join(rows))
